@@ -16,6 +16,7 @@ from vf import gen as G, oracle as O, snapshot as S
 from vf.checks.common import Case, call, exc_text
 
 ID = "C09"
+TECHNIQUE = "runtime monitoring: state monitor along transformation histories against the exact affine model"
 LEVEL = "exploration"
 RULE = ("random shapes of all kinds (simple, connected, disjoint, unbounded, curved, int/Fraction/float) x histories of "
         "1-8 in-place transformations: move (two numbers / tuple / Point2D), scale (positive factors 1e-3..1e3 as "
